@@ -167,15 +167,15 @@ var chainNodes = []nodeSpec{
 	{call: func(g *scriptGen) string { return "shift(" + kit.Pick(g.r, []string{"1m", "-1m", "10s", "-500ms"}) + ")" }, in: "any", out: "same"},
 	{call: lit("default()"), in: "any", out: "same", props: []func(*scriptGen) string{
 		lit("field('f', 1.0)"), lit("field('g', 2)"),
-		// (never zero: pipeline/tick drops a zero default - finding default-zero-field,
-		// corpus/C13/finding-default-zero-field.ops.pending)
-		func(g *scriptGen) string { return "field('hf', " + hardFloatNonZero(g.r) + ")" },
-		func(g *scriptGen) string { return "field('nhf', -" + hardFloatNonZero(g.r) + ")" },
-		// integer defaults stay within 2^53 (or exactly representable with the same digits): beyond it the pipeline
-		// JSON round trip changes them (finding default-int-field, corpus/C13/finding-default-int-field.ops.pending)
-		func(g *scriptGen) string {
-			return "field('hi', " + kit.Pick(g.r, []string{"9007199254740991", "9007199254740992", "1000000000000000000", "0777", "-9007199254740991"}) + ")"
-		}, lit("field('h', 'x')"), lit("field('b', TRUE)"), lit("tag('t', 'v')"), lit("field('n', -1.5)"), lit("field('m', -3)"),
+		func(g *scriptGen) string { return "field('hf', " + hardFloat(g.r) + ")" },
+		func(g *scriptGen) string { return "field('nhf', -" + hardFloat(g.r) + ")" },
+		// integer defaults at the int64 boundaries: beyond 2^53 the pipeline JSON round trip changes them (recorded
+		// finding default-int-field: KNOWN, exactly when nothing else differs)
+		func(g *scriptGen) string { return "field('hi', " + kit.Pick(g.r, intEdgePool) + ")" },
+		func(g *scriptGen) string { return "field('nhi', -" + kit.Pick(g.r, intEdgePool) + ")" },
+		// zero defaults of every type (pipeline/tick dropped them before aaa5b64)
+		lit("field('z', 0.0)"), lit("field('nz', -0.000)"), lit("field('zi', 0)"), lit("field('zb', FALSE)"), lit("field('zs', '')"), lit("tag('zt', '')"),
+		lit("field('h', 'x')"), lit("field('b', TRUE)"), lit("tag('t', 'v')"), lit("field('n', -1.5)"), lit("field('m', -3)"),
 	}},
 	{call: lit("delete()"), in: "any", out: "same", props: []func(*scriptGen) string{lit("field('x')"), lit("tag('y')")}},
 	{call: func(g *scriptGen) string { return "sample(" + kit.Pick(g.r, []string{"3", "10s", "1m"}) + ")" }, in: "any", out: "same"},
